@@ -4,11 +4,11 @@ Require Import ExtrOcamlBasic.
 Extraction Language OCaml.
 Extraction "model_krylov.ml"
   Q2Qc Qcplus Qcmult Qcminus Qcopp Qcinv Qcdiv Qccompare Coq.QArith.Qcabs.Qcabs
-  Qc_small Qc_ltb Qc_leb Qc_eqb Qc_tiny
+  Qc_small Qc_ltb Qc_leb Qc_eqb
   coo_wfb csr_wfb csc_wfb
   coo_to_coo csr_to_coo csc_to_coo coo_to_csr coo_to_csc csr_to_csr csc_to_csr csr_to_csc csc_to_csc
   q_csr_spmv q_csr_residual
   q_seq_ops q_dist_ops q_inner q_norm2sq q_dinner q_dnorm2sq
-  q_cg_run q_bi_run q_bi_half q_bi_init q_pcg_run q_pcg_binner q_par_cg_scale
+  q_cg_run q_bi_run q_bi_half q_bi_init q_pcg_run q_pcg_binner q_par_cg_scale q_par_cg_reported
   default_iters_13 default_iters_seq_bicgstab
   q_xnorm2sq q_xinner q_xdnorm2sq q_xdinner q_xgt xfinite.
